@@ -2494,16 +2494,18 @@ _dbus_connection_block_pending_call (DBusPendingCall *pending)
            */
           _dbus_verbose ("dbus_connection_send_with_reply_and_block() waiting for more memory\n");
 
-          _dbus_memory_pause_based_on_timeout (timeout_milliseconds - elapsed_milliseconds);
+          _dbus_memory_pause_based_on_timeout (timeout_milliseconds);
         }
       else
         {          
-          /* block again, we don't have the reply buffered yet. */
+          /* block again, we don't have the reply buffered yet. There is
+           * no timeout: keep passing -1, not -1 minus the time elapsed,
+           * which is not a valid timeout for waiting on the I/O path. */
           _dbus_connection_do_iteration_unlocked (connection,
                                                   pending,
                                                   DBUS_ITERATION_DO_READING |
                                                   DBUS_ITERATION_BLOCK,
-                                                  timeout_milliseconds - elapsed_milliseconds);
+                                                  timeout_milliseconds);
         }
 
       goto recheck_status;
